@@ -1,1 +1,144 @@
-Example C13_placeholder : True. Proof. exact I. Qed.
+(* Properties_C13.v — C13: a parse never causes a lasting loss of include capacity.
+   The include stack (and the flex buffer stack, and the count of FILEs opened by includes) is after
+   cfg_parse_fp what it was before, whatever the outcome; the nesting limit is respected throughout.
+   Proofs are in coq/BalanceProofs.v. *)
+From Coq Require String.
+Import String.StringSyntax.
+From Coq Require Import List Arith NArith ZArith Bool.
+From Coq.Strings Require Import Byte.
+From LC Require Import Bytes Consts Conv Flex LexAct Lexer Files Store Parser ApiProofs BalanceProofs.
+Import ListNotations.
+Local Open Scope string_scope.
+Local Open Scope list_scope.
+
+(* lex_wf l := Forall (fun f => i_buf f < l_next l) (l_inc l): include frames name buffers that have been
+   created.  It holds initially and is kept by every entry point (C13_wf_* below), so it is no restriction. *)
+
+Theorem C13_include_capacity_restored :
+  forall strtod_o fuel w c content d,
+  lex_wf (w_lex w) -> length (l_inc (w_lex w)) = d ->
+  let '(w', c', rc) := parse_fp_gen strtod_o fuel w c content in
+  length (l_inc (w_lex w')) = d.
+Proof. exact include_capacity_restored. Qed.
+Print Assumptions C13_include_capacity_restored.
+
+(* not only the depth: the very same frames, the very same buffers, no FILE left open *)
+Theorem C13_include_stack_restored :
+  forall strtod_o fuel w c content,
+  lex_wf (w_lex w) ->
+  let '(w', c', rc) := parse_fp_gen strtod_o fuel w c content in
+  l_inc (w_lex w') = l_inc (w_lex w) /\ l_bufs (w_lex w') = l_bufs (w_lex w) /\
+  w_open w' = w_open w /\ lex_wf (w_lex w').
+Proof. exact include_stack_restored. Qed.
+Print Assumptions C13_include_stack_restored.
+
+(* cfg_lexer_include refuses at the limit ... *)
+Theorem C13_depth_bounded_include :
+  forall w c a,
+  length (l_inc (w_lex w)) <= MAX_INCLUDE_DEPTH ->
+  length (l_inc (w_lex (fst (fst (lexer_include w c a))))) <= MAX_INCLUDE_DEPTH.
+Proof. exact lexer_include_depth. Qed.
+Print Assumptions C13_depth_bounded_include.
+
+(* ... hence the limit holds wherever cfg_setopt / cfg_init_defaults / cfg_parse_internal can get to
+   (every intermediate world of a run is the result of a run with less fuel) ... *)
+Theorem C13_depth_bounded :
+  forall strtod_o fuel,
+  (forall w c o txt, length (l_inc (w_lex w)) <= MAX_INCLUDE_DEPTH ->
+     length (l_inc (w_lex (fst (fst (setopt strtod_o fuel w c o txt))))) <= MAX_INCLUDE_DEPTH) /\
+  (forall w c, length (l_inc (w_lex w)) <= MAX_INCLUDE_DEPTH ->
+     length (l_inc (w_lex (fst (init_defaults strtod_o fuel w c)))) <= MAX_INCLUDE_DEPTH) /\
+  (forall w c l p, length (l_inc (w_lex w)) <= MAX_INCLUDE_DEPTH ->
+     length (l_inc (w_lex (fst (fst (parse_internal strtod_o fuel w c l p))))) <= MAX_INCLUDE_DEPTH).
+Proof. exact depth_bounded. Qed.
+Print Assumptions C13_depth_bounded.
+
+(* ... and after cfg_parse_fp *)
+Theorem C13_depth_bounded_parse :
+  forall strtod_o fuel w c content,
+  length (l_inc (w_lex w)) <= MAX_INCLUDE_DEPTH ->
+  length (l_inc (w_lex (fst (fst (parse_fp_gen strtod_o fuel w c content))))) <= MAX_INCLUDE_DEPTH.
+Proof. exact parse_fp_gen_depth. Qed.
+Print Assumptions C13_depth_bounded_parse.
+
+(* well-formedness of the scanner is an invariant of the API *)
+Theorem C13_wf_initial : lex_wf lex_init.
+Proof. exact lex_wf_init. Qed.
+Print Assumptions C13_wf_initial.
+Theorem C13_wf_init :
+  forall strtod_o fuel w decls flags,
+  lex_wf (w_lex w) -> lex_wf (w_lex (fst (cfg_init strtod_o fuel w decls flags))).
+Proof. exact cfg_init_wf. Qed.
+Print Assumptions C13_wf_init.
+Theorem C13_wf_parse_fp :
+  forall strtod_o fuel w c content,
+  lex_wf (w_lex w) -> lex_wf (w_lex (fst (fst (parse_fp_gen strtod_o fuel w c content)))).
+Proof. exact parse_fp_gen_wf. Qed.
+Print Assumptions C13_wf_parse_fp.
+Theorem C13_wf_parse_buf :
+  forall strtod_o fuel w c buf,
+  lex_wf (w_lex w) -> lex_wf (w_lex (fst (fst (parse_buf strtod_o fuel w c buf)))).
+Proof. exact parse_buf_wf. Qed.
+Print Assumptions C13_wf_parse_buf.
+Theorem C13_wf_parse_file :
+  forall strtod_o fuel w c fn,
+  lex_wf (w_lex w) -> lex_wf (w_lex (fst (fst (parse_file strtod_o fuel w c fn)))).
+Proof. exact parse_file_wf. Qed.
+Print Assumptions C13_wf_parse_file.
+Theorem C13_wf_free :
+  forall w c, lex_wf (w_lex w) -> lex_wf (w_lex (cfg_free w c)).
+Proof. exact cfg_free_wf. Qed.
+Print Assumptions C13_wf_free.
+
+(* ---------- examples ---------- *)
+Definition B := bs_of_string.
+Definition sd := ex_sd.
+Definition oi := Opt (B "i") KInt 0 [] [] defv0 None cbset0.
+Definition cbinc : cbset :=
+  {| cb_parse := None; cb_valid := None; cb_valid2 := None; cb_print := None; cb_free := false; cb_func := Some FInclude |}.
+Definition oinc := Opt (B "include") KFunc 0 [] [] defv0 None cbinc.
+Definition fs0 : fsys :=
+  {| fs_root := B "/R";
+     fs_ents := [(B "loop.conf", FFile (B "include(""loop.conf"")"));
+                 (B "good.conf", FFile (B "i = 7"));
+                 (B "brace.conf", FFile (B "} i = 1"))] |}.
+Definition w0 : pw :=
+  {| w_lex := lex_init; w_env := []; w_fs := fs0;
+     w_pw := {| pw_tab := []; pw_self := None |}; w_path := []; w_cbs := []; w_cnt := 0; w_failat := 0;
+     w_nextptr := 1; w_diags := []; w_open := 0; w_crash := None; w_oof := false |}.
+Definition init := cfg_init sd 50 w0 [oi; oinc] 0.
+Definition wI := fst init.
+Definition root := snd init.
+Definition run (w : pw) (c : cfg) (t : String.string) := parse_buf sd 300 w c (Some (B t)).
+Definition getint (c : cfg) : list value :=
+  match c_opts c with o :: _ => o_vals o | [] => [] end.
+
+(* a file that includes itself exhausts the include depth: the parse is rejected with ten levels open ... *)
+Example C13_ex_depth_exhausted :
+  let '(w, c, rc) := run wI root "include(""loop.conf"")" in
+  rc = CFG_PARSE_ERROR /\ map d_fmt (w_diags w) = [B "includes nested too deeply"] /\
+  l_inc (w_lex w) = [] /\ l_bufs (w_lex w) = [] /\ w_open w = 0 /\ w_oof w = false.
+Proof. vm_compute. repeat split; reflexivity. Qed.
+
+(* ... and the next parse has the full capacity again *)
+Example C13_ex_then_include_works :
+  let '(w, _, _) := run wI root "include(""loop.conf"")" in
+  let '(w', c', rc) := run w root "include(""good.conf"")" in
+  rc = CFG_SUCCESS /\ getint c' = [VInt 7] /\ l_inc (w_lex w') = [] /\ w_open w' = 0.
+Proof. vm_compute. repeat split; reflexivity. Qed.
+
+(* OBSERVATION (outside cfg_parse_fp, so not covered by the theorems above): cfg_init_defaults scans a
+   default-value text between cfg_scan_fp_begin / cfg_scan_fp_end but does NOT unwind includes.  A function
+   option bound to cfg_include whose default text includes a file that ends the nested parse early (a
+   top-level closing brace) leaves one buffer, one include frame and one open FILE behind — without any
+   diagnostic; every later parse restores exactly this state (C13_include_stack_restored), i.e. one level
+   of include capacity is lost for good. *)
+Definition oincd := Opt (B "include") KFunc 0 [] []
+   {| d_num := 0; d_fp := 0; d_bool := false; d_str := None; d_parsed := Some (B "include(""brace.conf"")") |} None cbinc.
+Example C13_ex_init_default_include_leaks :
+  let '(w, c) := cfg_init sd 50 w0 [oi; oincd] 0 in
+  length (l_inc (w_lex w)) = 1 /\ length (l_bufs (w_lex w)) = 1 /\ w_open w = 1 /\
+  w_crash w = None /\ w_oof w = false /\ w_diags w = [] /\
+  let '(w', _, rc) := run w c "i = 5" in
+  rc = CFG_SUCCESS /\ length (l_inc (w_lex w')) = 1 /\ w_open w' = 1.
+Proof. vm_compute. repeat split; reflexivity. Qed.
